@@ -20,7 +20,7 @@ def newTx (mode : EngineMode) (old : Tx) (ae : AuditEngine := .off) (parts : Byt
       matched := [], intr := none, detIntr := none, skipAfter := [], engine := mode, lastPhase := 0,
       rmIds := [], rmRanges := [], rmTargets := [], skip := 0, allow := .unset, audit := false,
       txc := (List.range 11).foldl (fun m i => m.set1 (natToBytes i) []) old.txc,
-      highestSeverity := 255, evalLog := [], errCb := [], auditEngine := ae, auditParts := parts, respStatus := [] }
+      highestSeverity := 255, evalLog := [], errCb := [], auditEngine := ae, auditParts := parts, respStatus := [], respCode := [] }
 
 /-- a brand-new object (pool empty): zero value + the same initialisation -/
 def freshTx (mode : EngineMode) : Tx := newTx mode {}
